@@ -548,6 +548,9 @@ Definition count_impl (acc : N) (k : hkind) : option (loc -> M N) :=
     | _ => None end
   else None.
 
+Definition owners (t : list (option handle)) (l : loc) : nat :=
+  length (filter (fun o => match o with Some x => Nat.eqb (hl x) l | None => false end) t).
+
 Definition declined (s : st) : st * N * list N := (s, S_DECLINED, []).
 
 Definition step (d : bool) (s : st) (o : op) : st * list N :=
@@ -633,7 +636,7 @@ Definition step (d : bool) (s : st) (o : op) : st * list N :=
     match get_h s h with
     | Some x =>
       match count_impl acc (hk x) with
-      | Some f => run_lib s (f (hl x)) (fun c s' => (s', S_OK, [c]))
+      | Some f => run_lib s (f (hl x)) (fun c s' => (s', S_OK, [c; N.of_nat (owners (tbl s') (hl x))]))
       | None => (s, skip_obs)
       end
     | None => (s, skip_obs)
@@ -925,8 +928,6 @@ Definition decode (l : list N) : op :=
 
 (** final line: for every block, [alive; count; number of owning table entries] — lets the harness's own
     bookkeeping be compared at the end of the history *)
-Definition owners (t : list (option handle)) (l : loc) : nat :=
-  length (filter (fun o => match o with Some x => Nat.eqb (hl x) l | None => false end) t).
 
 Definition final_obs (s : st) : list N :=
   flat_map (fun '(l, b) => [if b_alive b then 1 else 0; N.of_nat (owners (tbl s) l)])
